@@ -22,7 +22,8 @@ try:
     rep.check_floors()
 except Exception as e:
     print("FLOOR:", e)
+rep.apply_known()
 for o in rep.obligations:
     if not o.ok:
-        print(o.loc, o.rule, o.instance, "::", o.msg, ("\n    " + o.witness) if o.witness else "")
+        print(("(known) " if o.known else "") + str(o.loc), o.rule, o.instance, "::", o.msg, ("\n    " + o.witness) if o.witness else "")
 print(len(rep.obligations), "obligations")
